@@ -535,6 +535,15 @@ MUTANTS = [
     M("G7-2-prev-minus-two", ["C13"], (RK, "index.checked_sub(1).map(|prev| Self::ALL[prev])", "index.checked_sub(2).map(|prev| Self::ALL[prev])"), base="G7-2"),
     M("G7-2-prev-oob", ["C13", "C09"], (RK, "index.checked_sub(1).map(|prev| Self::ALL[prev])", "index.checked_sub(1).map(|prev| Self::ALL[prev + 2])"), base="G7-2"),
     M("benign-D5-4-ordered-table", ["C13", "C09"], base="D5-4", benign=True),
+    M("benign-B3-1-dp-ref-3d-table", ["C01", "C07", "C08"], base="B3-1", benign=True),
+    M("B3-1-guard-too-narrow", ["C01", "C07"], (DP, "if !(1..=4).contains(&len) {", "if !(1..=3).contains(&len) {"), base="B3-1"),
+    M("B3-1-guard-too-wide", ["C08"], (DP, "if !(1..=4).contains(&len) {", "if !(0..=4).contains(&len) {"), base="B3-1"),
+    M("B3-1-no-minus-one", ["C01", "C07"], (DP, "REF_BY_LEN[(len - 1) as usize][rank_index]", "REF_BY_LEN[(len - 0) as usize % 4][rank_index]"), base="B3-1"),
+    M("benign-G8-1-suit-pair-tables", ["C05", "C12", "C10", "C06"], base="G8-1", benign=True),
+    M("G8-1-duplicate-entry", ["C05", "C12"], (RP, "    (Suit::Club, Suit::Heart),\n    (Suit::Club, Suit::Diamond),\n];", "    (Suit::Club, Suit::Heart),\n    (Suit::Club, Suit::Heart),\n];"), base="G8-1"),
+    M("G8-1-wrong-table", ["C05", "C12"], (RP, "RankPair::Suited(high, kicker) => (high, kicker, &SUITED_SUITS),", "RankPair::Suited(high, kicker) => (high, kicker, &POCKET_SUITS),"), base="G8-1"),
+    M("G8-1-swapped-ranks", ["C05", "C12"], (RP, "RankPair::Ofsuit(high, kicker) => (high, kicker, &OFSUIT_SUITS),", "RankPair::Ofsuit(high, kicker) => (kicker, kicker, &OFSUIT_SUITS),"), base="G8-1"),
+    M("G8-1-same-suit", ["C05", "C12"], (RP, "CardPair::new(Card::new(high, high_suit), Card::new(kicker, kicker_suit))", "CardPair::new(Card::new(high, high_suit), Card::new(kicker, high_suit))"), base="G8-1"),
     M("benign-F3-3-computed-flush-weight", ["C01", "C07", "C08"], base="F3-3", benign=True),
     M("F3-3-unreversed", ["C01", "C07"], (MH, "1 << (12 - u8::from(card.rank()))", "1 << u8::from(card.rank())"), base="F3-3"),
     M("F3-3-off-by-one", ["C01", "C07"], (MH, "1 << (12 - u8::from(card.rank()))", "1 << (13 - u8::from(card.rank()))"), base="F3-3"),
